@@ -1922,6 +1922,9 @@ double ov_time_tell(OggVorbis_File *vf){
       time_total-=ov_time_total(vf,link);
       if(vf->pcm_offset>=pcm_total)break;
     }
+    /* position unknown or invalid (negative, eg after a failed seek):
+       do not index vi[-1] */
+    if(link<0)link=0;
   }
 
   return((double)time_total+(double)(vf->pcm_offset-pcm_total)/vf->vi[link].rate);
